@@ -10,7 +10,13 @@ def zc(v):
 
 
 def natlist(l):
+    if not l:
+        return "(@nil nat)"
     return "[" + "; ".join(str(int(x)) for x in l) + "]"
+
+
+def lablist(evs):
+    return "[" + "; ".join(evs) + "]" if evs else "(@nil lab)"
 
 
 def inconclusive(obs):
@@ -127,8 +133,8 @@ class ChansSpec(SeqSpec):
                 evs.append("LRecvd 999 0%Z")     # an event the model never produces (e.g. out-closed)
         if inconclusive(obs):
             evs = []
-        return "(%s, %s, %s, [%s])" % ("true" if cfg["kind"] == "replicate" else "false",
-                                       natlist(cfg["caps"][:nin]), natlist(cfg["caps"][nin:]), "; ".join(evs))
+        return "(%s, %s, %s, %s)" % ("true" if cfg["kind"] == "replicate" else "false",
+                                     natlist(cfg["caps"][:nin]), natlist(cfg["caps"][nin:]), lablist(evs))
 
     # ---------------------------------------------------------------- direct oracle
     def oracle(self, case, obs):
@@ -389,7 +395,8 @@ class SMergeSpec(SeqSpec):
                 evs.append("LSrcEnter 999")          # e.g. "panic": never produced by the model
         if inconclusive(obs):
             evs = []
-        return "(%s, %s, %d, [%s])" % (sc, pr, nctx, "; ".join(evs))
+        return "(%s, %s, %d, %s)" % (sc if cfg["scripts"] else "(@nil (list Z * option Z))", pr if cfg["prog"] else "(@nil kcmd)",
+                                     nctx, lablist(evs))
 
     def oracle(self, case, obs):
         aux = obs.get("aux", {})
